@@ -201,6 +201,9 @@ func (r *reader) apiStep(it int) {
 		if st == 200 && f != nil && body != acctJSON(f.acct[ai]) {
 			r.apiFail("api-inconsistent:accounts@id", url, st, body+" expected "+acctJSON(f.acct[ai]), s, e)
 		}
+		if st == 200 && f == nil { // finalized / justified / number: the answer of SOME block that revision can denote
+			r.checkRevContent(url, rev, body, s, e, func(x *bfact) string { return acctJSON(x.acct[ai]) })
+		}
 	case 3: // storage and code
 		rev, f := pickRev()
 		si := r.rng.Intn(len(w.slots))
@@ -221,6 +224,14 @@ func (r *reader) apiStep(it int) {
 			if body != want {
 				r.apiFail("api-inconsistent:storage@id", url, st, body+" expected "+want, s, e)
 			}
+		}
+		if st == 200 && f == nil {
+			r.checkRevContent(url, rev, body, s, e, func(x *bfact) string {
+				if si >= 0 {
+					return fmt.Sprintf(`{"value":"%s"}`, x.slotVals[si])
+				}
+				return fmt.Sprintf(`{"code":"%s"}`, x.code)
+			})
 		}
 	case 4, 9: // call simulation against best / next / an observed block: writes storage inside the EVM
 		rev := []string{"best", "next", ""}[r.rng.Intn(3)]
@@ -440,4 +451,41 @@ func shorts(ids []thor.Bytes32) (out []string) {
 		out = append(out, short(id))
 	}
 	return
+}
+
+// checkRevContent: content oracle for the revisions finalized / justified / <number>. Which block such a revision
+// denotes depends on the instant, but it is always a stored block of a known class: a value the finalized checkpoint
+// took on the node without readers; a stored checkpoint block; a stored block of that height.
+func (r *reader) checkRevContent(url, rev, body string, s, e uint64, want func(*bfact) string) {
+	w := r.w
+	var cands []*bfact
+	switch {
+	case rev == "finalized":
+		cands = append(cands, w.facts[w.net.B0.Header().ID()])
+		for _, id := range w.ref.finalities {
+			cands = append(cands, w.facts[id])
+		}
+	case rev == "justified":
+		for _, id := range w.order {
+			if f := w.facts[id]; f.num%3 == 0 {
+				cands = append(cands, f)
+			}
+		}
+	case len(rev) < 12: // a block number
+		var n uint32
+		fmt.Sscanf(rev, "%d", &n)
+		for _, id := range w.order {
+			if f := w.facts[id]; f.num == n {
+				cands = append(cands, f)
+			}
+		}
+	default:
+		return
+	}
+	for _, f := range cands {
+		if f != nil && want(f) == body {
+			return
+		}
+	}
+	r.apiFail("api-inconsistent:"+revClass(rev), url, 200, body+" is not the answer of any block this revision can denote", s, e)
 }
